@@ -101,12 +101,14 @@ Qed.
 
 (* ------------------------------------------------------------------ InsertItemsAt *)
 
-Lemma insert_items_general ow q i xs n : n = length xs -> inv ow sq q -> i <= cnt q ->
-  let q2 := ensure_size ow jk sq q (cnt q + n) true 0 false in
-  let q3 := fold_left (fun g k => setu g (k + n) (getu g k)) (rev (seq i (cnt q - i))) q2 in
-  inv ow sq (write_from q3 i xs) /\ abs (write_from q3 i xs) = l0_insert_at (abs q) i xs.
+Lemma insert_items_general_spec ow q i xs : inv ow sq q -> i <= cnt q ->
+  inv ow sq (insert_items_general ow jk sq q i xs) /\
+  abs (insert_items_general ow jk sq q i xs) = l0_insert_at (abs q) i xs.
 Proof.
-  intros Hn I Hi q2 q3.
+  intros I Hi. unfold insert_items_general. cbv zeta.
+  set (n := length xs). assert (Hn : n = length xs) by reflexivity.
+  set (q2 := ensure_size ow jk sq q (cnt q + n) true 0 false).
+  set (q3 := fold_left (fun g k => setu g (k + n) (getu g k)) (rev (seq i (cnt q - i))) q2).
   destruct (ensure_size_spec jk sq ow q (cnt q + n) true 0 false I) as (I2 & A2 & S2). fold q2 in I2, A2, S2.
   assert (C2 : cnt q2 = cnt q + n) by (rewrite <- (abs_length q2), A2; apply l0_resize_length).
   destruct (fold_copy_spec sq ow (fun k => k + n) (fun k => k) (rev (seq i (cnt q - i))) q2 I2) as (K1&K2&K3&K4&K5).
@@ -142,8 +144,8 @@ Proof.
       * destruct (add_tail_spec jk sq ow q x I) as [J1 J2]. split; [assumption|].
         rewrite J2. replace i' with (cnt q) by lia. unfold l0_insert_at.
         rewrite firstn_abs_all, skipn_all2, app_nil_r by (rewrite ?abs_length; lia). reflexivity.
-      * exact (insert_items_general ow q i' [x] 1 eq_refl I Hi).
-  - exact (insert_items_general ow q i' (x :: y :: t) (length (x :: y :: t)) eq_refl I Hi).
+      * exact (insert_items_general_spec ow q i' [x] I Hi).
+  - exact (insert_items_general_spec ow q i' (x :: y :: t) I Hi).
 Qed.
 
 (* ------------------------------------------------------------------ RemoveAllInstancesOf *)
@@ -170,7 +172,7 @@ Qed.
 (* ------------------------------------------------------------------ Normalize *)
 
 Lemma normalize_rotate ow q : inv ow sq q -> 0 < cnt q ->
-  let q' := mkQ (st q) (skipn (head q) (arr q) ++ firstn (head q) (arr q)) (cnt q) 0 (cnt q - 1) in
+  let q' := mkQ (st q) (skipn (head q) (arr q) ++ firstn (head q) (arr q)) (cnt q) 0 (cnt q - 1) (inl q) in
   inv ow sq q' /\ abs q' = abs q.
 Proof.
   intros I Hc q'. pose proof (inv_cnt _ _ q I) as Hn. pose proof (inv_hd _ _ q I Hc) as Hh.
@@ -180,13 +182,14 @@ Proof.
   { intros i Hi. rewrite getu_head0; [|reflexivity|lia]. unfold q'. cbn [arr].
     autorewrite with nthdb. unfold getu, intern, qsize in *. cbv zeta. dif; fin. }
   split.
-  - constructor; unfold store_ok, clean; rewrite ?Q; cbn [st cnt head tail q'].
+  - constructor; unfold store_ok, clean, inl_ok; rewrite ?Q; cbn [st cnt head tail inl q'].
     + exact (inv_sq _ _ q I).
     + exact Hn.
     + lia.
     + intros _. rewrite intern_head0; [reflexivity|reflexivity|lia].
     + exact (inv_store _ _ q I).
     + intros Ho i Hi. rewrite G by lia. apply (inv_clean _ _ q I Ho). lia.
+    + exact (inv_inl _ _ q I).
   - apply abs_congr; [reflexivity|]. intros i Hi. apply G. lia.
 Qed.
 
@@ -199,7 +202,7 @@ Lemma normalize_gap_steps ow q start k :
        let g1 := set_raw g (start + i) v in
        if ow then set_raw g1 (intern q i) dflt else g1 in
   let g := fold_left step (seq 0 k) q in
-  st g = st q /\ qsize g = qsize q /\
+  st g = st q /\ qsize g = qsize q /\ inl g = inl q /\
   forall s, s < qsize q ->
     nth s (arr g) dflt =
     if (start <=? s) && (s <? start + k) then getu q (s - start)
@@ -208,7 +211,7 @@ Proof.
   intros Hh Hc Hk Hgap Hwrap Hst step. induction k as [|k IH].
   - cbn [seq fold_left]. repeat split. intros s Hs. rewrite andb_false_r. dif; fin.
   - intros g. subst g. rewrite seq_S, fold_left_app. cbn [fold_left Nat.add].
-    destruct (IH ltac:(lia)) as (H1 & H2 & H3).
+    destruct (IH ltac:(lia)) as (H1 & H2 & H4 & H3).
     set (g := fold_left step (seq 0 k) q) in *.
     unfold step. cbv beta zeta.
     assert (A : forall s, s < qsize q ->
@@ -216,13 +219,13 @@ Proof.
               if s =? start + k then getu q k else nth s (arr g) dflt).
     { intros s Hs. cbn [arr set_raw]. rewrite nth_upd. unfold qsize in *. dif; fin. }
     destruct ow.
-    + split; [exact H1|]. split; [rewrite !qsize_set_raw; exact H2|].
+    + split; [exact H1|]. split; [rewrite !qsize_set_raw; exact H2|]. split; [exact H4|].
       intros s Hs. cbn [arr set_raw]. rewrite nth_upd, upd_length.
       change (nth s (upd (arr g) (start + k) (getu q k)) dflt)
         with (nth s (arr (set_raw g (start + k) (getu q k))) dflt).
       rewrite A, H3 by assumption. clear IH H3 A.
       unfold extern, intern, qsize in *. cbv zeta. cbn [andb]. difh; fin.
-    + split; [exact H1|]. split; [rewrite !qsize_set_raw; exact H2|].
+    + split; [exact H1|]. split; [rewrite !qsize_set_raw; exact H2|]. split; [exact H4|].
       intros s Hs. rewrite A, H3 by assumption. cbn [andb]. dif; fin.
 Qed.
 
@@ -240,17 +243,17 @@ Proof.
   assert (Hwrap : head q + cnt q > qsize q) by (unfold intern in Ht; cbv zeta in Ht; difh; lia).
   assert (Htl : tail q = head q + cnt q - 1 - qsize q) by (unfold intern in Ht; cbv zeta in Ht; difh; lia).
   assert (Hgap : tail q + 1 + cnt q <= head q) by lia.
-  destruct (normalize_gap_steps ow q (tail q + 1) (cnt q) Hh Hn ltac:(lia) Hgap Hwrap ltac:(lia)) as (H1 & H2 & H3).
-  cbv zeta in H1, H2, H3.
+  destruct (normalize_gap_steps ow q (tail q + 1) (cnt q) Hh Hn ltac:(lia) Hgap Hwrap ltac:(lia)) as (H1 & H2 & H4 & H3).
+  cbv zeta in H1, H2, H3, H4.
   set (g := fold_left _ (seq 0 (cnt q)) q) in *.
-  set (q' := mkQ (st g) (arr g) (cnt q) (tail q + 1) (tail q + 1 + cnt q - 1)).
+  set (q' := mkQ (st g) (arr g) (cnt q) (tail q + 1) (tail q + 1 + cnt q - 1) (inl g)).
   assert (Q : qsize q' = qsize q) by exact H2.
   assert (G : forall i, i < cnt q -> getu q' i = getu q i).
   { intros i Hi. unfold getu at 1. unfold intern. rewrite Q. cbn [head arr q']. cbv zeta.
     replace (tail q + 1 + i <? qsize q) with true by lia.
     rewrite H3 by lia. replace (tail q + 1 + i - (tail q + 1)) with i by lia. dif; fin. }
   split.
-  - constructor; unfold store_ok; rewrite ?Q; cbn [st cnt head tail q'].
+  - constructor; unfold store_ok, inl_ok; rewrite ?Q; cbn [st cnt head tail inl q'].
     + exact (inv_sq _ _ q I).
     + exact Hn.
     + lia.
@@ -264,6 +267,7 @@ Proof.
       destruct (extern q s <? cnt q) eqn:E4; [reflexivity|].
       apply (clean_slots _ _ q I Ho s Hs).
       destruct (intern_extern q s Hh Hs) as [L E]. rewrite <- E, in_win_intern by assumption. lia.
+    + rewrite H1, H4. exact (inv_inl _ _ q I).
   - apply abs_congr; [reflexivity|]. exact G.
 Qed.
 
